@@ -74,6 +74,13 @@ def oracleTick (st : St) (c : Nat) (seen : List Task) : String :=
   if sortStrs (seen.map showTask) == sortStrs (want.map showTask) then "true"
   else s!"false want={showTasks want}"
 
+/-- The same clause for one wall-clock instant at which several crontabs (the declared spellings of one
+schedule) are due together: one task per enabled binding whose crontab is one of them. -/
+def oracleWall (st : St) (cs : List Nat) (seen : List Task) : String :=
+  let want := cs.flatMap (Spec.wantTasks st.cfgFn st.hooks (Spec.enabledAfter st.hist))
+  if sortStrs (seen.map showTask) == sortStrs (want.map showTask) then "true"
+  else s!"false want={showTasks want}"
+
 def showQueues (qs : List (Nat × List Task)) : String :=
   if qs.isEmpty then "-" else String.intercalate " " (qs.map (fun (q, ts) => s!"q{q}={showTasks ts}"))
 
@@ -142,6 +149,27 @@ def step (st : St) (toks : List String) : St × String :=
       let ts := tickTasks id st.hooks st.sys c
       (st, showQueues (place (st.queues.map (·, [])) ts))
     | none => (st, "bad-op")
+  | ["wtick", cs] =>
+    match parseIncl cs with
+    | some cs =>
+      -- `cs` = the declared crontab strings the real parser reads as the schedule that is due
+      let ts := wallTickTasks (fun c => if cs.contains c then 1 else 0) id st.hooks st.sys 1
+      (st, showQueues (place (st.queues.map (·, [])) ts))
+    | none => (st, "bad-op")
+  | ["oracle", "wtick", cs, ts] =>
+    match (kv? "cs" [cs]).bind parseIncl, (kv? "tasks" [ts]).map strList with
+    | some cs, some l =>
+      match l.mapM parseTask with
+      | some seen => (st, oracleWall st cs seen)
+      | none => (st, "bad-op")
+    | _, _ => (st, "bad-op")
+  | ["oracle", "event", c, ts] =>
+    match (kv? "c" [c]).bind String.toNat?, (kv? "tasks" [ts]).map strList with
+    | some c, some l =>
+      match l.mapM parseTask with
+      | some seen => (st, oracleTick st c seen)
+      | none => (st, "bad-op")
+    | _, _ => (st, "bad-op")
   | ["oracle", "tick", c, ts] =>
     match (kv? "c" [c]).bind String.toNat?, (kv? "tasks" [ts]).map strList with
     | some c, some l =>
